@@ -849,3 +849,36 @@ def gen_plateau_locus(src, with_annotation=True, chrom="chr1"):
             "overrides": overrides, "reads": reads, "nfiles": 1,
             "gtf": {"gene_records": True, "transcript_records": True}, "special": special,
             "hidden_genes": [] if with_annotation else genes}
+
+
+def add_mirror_strand_clone(src, sc, g, reads_per_chain=(3, 5), name_prefix="m"):
+    """Clone gene g (and the unannotated chains derived from it) onto a new chromosome at the SAME coordinates but on
+    the opposite strand, with splice sites canonical for that strand, and add exact reads of every chain.  Two
+    chromosomes then carry introns with identical coordinates and opposite strands (per-process caches keyed by
+    coordinates only give themselves away)."""
+    used = set(c[0] for c in sc["chroms"])
+    free = [n for n in CHROM_NAMES if n not in used]
+    if not free:
+        return None
+    src_len = chrom_len(sc, g["chr"])
+    name = free[0]
+    sc["chroms"].append([name, src_len + src.int(0, 3) * 1000, src.int(1, 10 ** 6)])
+    strand = "-" if g["strand"] == "+" else "+"
+    clone = {"id": g["id"] + "m", "chr": name, "strand": strand, "canon": "canon",
+             "transcripts": [{"id": t["id"] + "m", "exons": [list(e) for e in t["exons"]]} for t in g["transcripts"]]}
+    sc["genes"].append(clone)
+    chains = [t["exons"] for t in clone["transcripts"]]
+    for nv in list(sc.get("novel", [])):
+        if nv.get("gene") == g["id"] or (nv.get("gene") is None and nv["chr"] == g["chr"]
+                                         and nv["exons"][-1][1] + 100 < sc["chroms"][-1][1]):
+            chains.append([list(e) for e in nv["exons"]])
+            sc["novel"].append({"chr": name, "strand": strand, "exons": [list(e) for e in nv["exons"]],
+                                "gene": clone["id"]})
+    k = 0
+    for ex in chains:
+        sc["overrides"] += build.splice_overrides(name, ex, strand)
+        for _ in range(src.int(*reads_per_chain)):
+            k += 1
+            sc["reads"].append(exact_read("%s%s_%d" % (name_prefix, g["id"], k), name, strand, ex,
+                                          polya=src.int(20, 30)))
+    return clone
